@@ -53,6 +53,13 @@ type I2 interface {
 	inI2()
 }
 
+// I0b has exactly I0's method set under another type name: I0 and I0b
+// implement each other, yet they are distinct types.
+type I0b interface {
+	Token() int
+	inI0()
+}
+
 func (T0) inI0() {}
 func (T1) inI0() {}
 func (T1) inI1() {}
@@ -61,11 +68,19 @@ func (T0) inI2() {}
 func (t5) inI1() {}
 
 const (
-	NumConcrete = 6
+	NumConcrete = 6 // the defined concrete types 0..5 (kept for the stable numbering of old cases)
 	TypeI0      = 6
 	TypeI1      = 7
 	TypeI2      = 8
-	NumTypes    = 9
+	// TypeU is the UNNAMED struct type struct{ K int }: not identical to T0, T1,
+	// T2 or t4, but mutually assignable with each of them (same underlying
+	// type). It has no methods.
+	TypeU = 9
+	// TypeAny is interface{}: implemented by every type, interfaces included.
+	TypeAny = 10
+	// TypeI0b is I0's twin (same method set, different type).
+	TypeI0b  = 11
+	NumTypes = 12
 )
 
 // Types is the universe, indexed by type number.
@@ -75,6 +90,9 @@ var Types = []reflect.Type{
 	reflect.TypeOf(t4{}), reflect.TypeOf(t5(0)),
 	reflect.TypeOf((*I0)(nil)).Elem(), reflect.TypeOf((*I1)(nil)).Elem(),
 	reflect.TypeOf((*I2)(nil)).Elem(),
+	reflect.TypeOf(struct{ K int }{}),
+	reflect.TypeOf((*interface{})(nil)).Elem(),
+	reflect.TypeOf((*I0b)(nil)).Elem(),
 }
 
 var typeIndex = func() map[reflect.Type]int {
@@ -93,7 +111,7 @@ func TypeIdx(t reflect.Type) int {
 	return -1
 }
 
-func IsIface(t int) bool { return t >= NumConcrete }
+func IsIface(t int) bool { return t >= 0 && t < len(Types) && Types[t].Kind() == reflect.Interface }
 
 // Implements reports whether concrete-or-interface type a can be used where
 // interface type iface is required (Go's Implements).
@@ -107,8 +125,8 @@ func Implements(a, iface int) bool {
 // Implementers lists the concrete types implementing interface type iface.
 func Implementers(iface int) []int {
 	var r []int
-	for i := 0; i < NumConcrete; i++ {
-		if Implements(i, iface) {
+	for i := 0; i < NumTypes; i++ {
+		if !IsIface(i) && Implements(i, iface) {
 			r = append(r, i)
 		}
 	}
@@ -157,7 +175,7 @@ func Observe(v reflect.Value) Obs {
 		v = v.Elem()
 	}
 	if v.Kind() == reflect.Int {
-		if i := TypeIdx(v.Type()); i >= 0 && i < NumConcrete {
+		if i := TypeIdx(v.Type()); i >= 0 && !IsIface(i) {
 			return Obs{Tok: int(v.Int()), Dyn: i, Valid: true}
 		}
 		return Obs{Dyn: -1}
@@ -167,7 +185,7 @@ func Observe(v reflect.Value) Obs {
 		// a pointer-typed universe member was dereferenced above
 		i = TypeIdx(reflect.PtrTo(v.Type()))
 	}
-	if i < 0 || i >= NumConcrete {
+	if i < 0 || IsIface(i) {
 		return Obs{Dyn: -1}
 	}
 	return Obs{Tok: int(v.Field(0).Int()), Dyn: i, Valid: true}
